@@ -437,7 +437,18 @@ pub fn configs(ctx: &Ctx) -> Stats {
         };
         let cfg = CtrCfg { k, threads, mem_gb: mem_for_limit(limit), acgt: rng.chance(1, 3) };
         let sc = Scratch::new(ctx, "c07c");
-        let inp = write_fa(&sc, &recs);
+        // the counter reads through the same reader as everything else: now and then the records arrive as
+        // wrapped FASTA, FASTQ or multi-member gzip
+        let inp = if i % 5 == 4 {
+            use super::oligo::{write_input, Container};
+            let fastq_ok = recs.iter().all(|r| !r.seq.is_empty()) && !recs.is_empty();
+            let cont = if fastq_ok && rng.chance(1, 2) { Container::Fastq } else { Container::FastaWrapped(rng.usize(1, 70)) };
+            let gz = if rng.chance(1, 2) { Some(refmodel::ser::GzLayout::Multi(rng.usize(2, 5))) } else { None };
+            st.class("container-variant");
+            write_input(&sc, "in", &recs, &cont, gz.as_ref(), &mut rng)
+        } else {
+            write_fa(&sc, &recs)
+        };
         let out = sc.subdir("out");
         let mode = if i % 3 == 0 { Mode::Perturbed { seed: rng.next_u64(), max_us: 100 } } else { Mode::Log };
         let ctl = Controller::new(mode, threads, "ctr.took", "ctr.exit", vec![]);
@@ -543,4 +554,44 @@ pub fn cli(ctx: &Ctx) -> Stats {
             st.sample(Json::obj().set("argv", Json::s(args.join(" "))).set("valid_windows", Json::u(windows)));
         }
     })
+}
+
+/// records whose length is exactly a power of two (2^16, 2^20) plus -1 .. k+1 (seams of any block-wise
+/// processing of a record); two-letter periodic content, counts checked through the full count()+merge()
+pub fn seams(ctx: &Ctx) -> Stats {
+    let mut st = Stats::new();
+    let blocks: &[usize] = if ctx.tier == Tier::Quick { &[1 << 16, 1 << 20] } else { &[1 << 16, 1 << 20, 1 << 21] };
+    let mut i = 0u64;
+    for &blk in blocks {
+        for k in [3usize, 11, 21, 31] {
+            let mut recs: Vec<Rec> = Vec::new();
+            for delta in [-1isize, 0, 1, k as isize - 1, k as isize, k as isize + 1] {
+                let len = (blk as isize + delta) as usize;
+                let unit: &[u8] = if delta % 2 == 0 { b"AC" } else { b"AAG" };
+                recs.push(Rec { id: format!("s{}", recs.len()), desc: None, seq: (0..len).map(|j| unit[j % unit.len()]).collect() });
+            }
+            i += 1;
+            let cfg = CtrCfg { k, threads: 1 + (i as usize % 4), mem_gb: if i % 2 == 0 { 6.0 } else { mem_for_limit(blk as u64 * 2) }, acgt: false };
+            let sc = Scratch::new(ctx, "c07seam");
+            let inp = write_fa(&sc, &recs);
+            let out = sc.subdir("out");
+            let case = Json::obj().set("cfg", cfg.json()).set("record_lengths", Json::s(format!("2^{} + {{-1,0,1,k-1,k,k+1}}", blk.trailing_zeros())));
+            note_current_case(ctx, &case);
+            let run = run_counter(&inp, &out, &cfg, None);
+            st.case(true, mix(i) ^ mix(blk as u64));
+            st.class(&format!("block=2^{}", blk.trailing_zeros()));
+            match &run.result {
+                Err(p) => st.violate(&panic_sig(p), p.clone(), case.clone()),
+                Ok(()) => {
+                    if let Err((sig, msg)) = check_final(&run, &recs, &cfg) {
+                        st.violate(&format!("{}:seam", sig), msg, case.clone());
+                    }
+                }
+            }
+            if i % 3 == 0 {
+                st.sample(case);
+            }
+        }
+    }
+    st
 }
